@@ -1,6 +1,9 @@
 package main
 
 import (
+	"crypto/sha256"
+	_ "embed"
+	"encoding/hex"
 	"fmt"
 	"io"
 	"os"
@@ -113,4 +116,111 @@ func copyTree(src, dst string) error {
 		_, err = io.Copy(out, in)
 		return err
 	})
+}
+
+// ---- negative controls and the reference digest ----
+
+//go:embed refdigest.txt
+var refDigest string
+
+// treeDigest hashes the non-test Go sources of the module under repo (paths and contents).
+func treeDigest(repo string) string {
+	var files []string
+	filepath.Walk(repo, func(path string, info os.FileInfo, err error) error {
+		if err != nil {
+			return nil
+		}
+		if info.IsDir() {
+			if n := info.Name(); n == ".git" || n == "examples" || n == "testdata" {
+				return filepath.SkipDir
+			}
+			return nil
+		}
+		if strings.HasSuffix(path, ".go") && !strings.HasSuffix(path, "_test.go") {
+			files = append(files, path)
+		}
+		return nil
+	})
+	sort.Strings(files)
+	h := sha256.New()
+	for _, f := range files {
+		rel, _ := filepath.Rel(repo, f)
+		b, err := os.ReadFile(f)
+		if err != nil {
+			continue
+		}
+		sum := sha256.Sum256(b)
+		fmt.Fprintf(h, "%s %s\n", rel, hex.EncodeToString(sum[:]))
+	}
+	return hex.EncodeToString(h.Sum(nil))
+}
+
+// isReferenceTree: the tree under analysis is, file for file, the tree the controls were confirmed on.  Only then does
+// a control that misbehaves fail the run: on any other tree a control (a patch written against the reference tree,
+// applied on top of somebody else's change) is informative but proves nothing about the property of that tree.
+func isReferenceTree(repo string) bool {
+	return strings.TrimSpace(refDigest) != "" && strings.TrimSpace(refDigest) == treeDigest(repo)
+}
+
+// runNegativeControls (thorough tier): every behaviour-preserving refactoring kept under <dir>/<property>-<n>/ is
+// applied to a scratch copy and the property's rules are run on the copy: they must stay silent (child exit 0).
+func runNegativeControls(id, repo, knownPath, dir string) (lines []string, applied, alarms int) {
+	patches, _ := filepath.Glob(filepath.Join(dir, id+"-*", "patch.diff"))
+	sort.Strings(patches)
+	for _, pf := range patches {
+		name := "refactoring " + filepath.Base(filepath.Dir(pf))
+		base := "/var/tmp"
+		if st, err := os.Stat(base); err != nil || !st.IsDir() {
+			base = os.TempDir()
+		}
+		tmp, err := os.MkdirTemp(base, "sftpcheck-neg-")
+		if err != nil {
+			lines = append(lines, name+": skipped (no scratch directory: "+err.Error()+")")
+			continue
+		}
+		func() {
+			defer os.RemoveAll(tmp)
+			if err := copyTree(repo, tmp); err != nil {
+				lines = append(lines, name+": skipped (copy failed: "+err.Error()+")")
+				return
+			}
+			if _, err := exec.Command("patch", "-p1", "-s", "--dry-run", "-d", tmp, "-i", pf).CombinedOutput(); err != nil {
+				lines = append(lines, name+": skipped (the change does not apply to this tree)")
+				return
+			}
+			if out, err := exec.Command("patch", "-p1", "-s", "-d", tmp, "-i", pf).CombinedOutput(); err != nil {
+				lines = append(lines, name+": skipped (patch failed: "+strings.TrimSpace(string(out))+")")
+				return
+			}
+			applied++
+			cmd := exec.Command(os.Args[0], "-property", id, "-tier", "quick", "-repo", tmp, "-out", filepath.Join(tmp, ".evidence"), "-known", knownPath)
+			out, err := cmd.CombinedOutput()
+			code := 0
+			if ee, ok := err.(*exec.ExitError); ok {
+				code = ee.ExitCode()
+			} else if err != nil {
+				code = -1
+			}
+			switch code {
+			case 0:
+				lines = append(lines, name+": silent")
+			case 1:
+				alarms++
+				first := ""
+				for _, l := range strings.Split(string(out), "\n") {
+					if strings.Contains(l, ": violated: ") || strings.Contains(l, ": undecided: ") {
+						first = l
+						break
+					}
+				}
+				if len(first) > 200 {
+					first = first[:200]
+				}
+				lines = append(lines, name+": FALSE ALARM (behaviour-preserving change reported: "+first+")")
+			default:
+				lines = append(lines, fmt.Sprintf("%s: control run failed with exit code %d", name, code))
+			}
+		}()
+	}
+	return
 }
